@@ -503,7 +503,28 @@ func downloadBundleEntries(ctx context.Context, bundle *Bundle,
 		indices = int64(len(diff.Entries))
 		bundle.l.Info("downloading diff entries",
 			zap.Int("num", len(diff.Entries)))
+		// removals first: a path may be a file in one bundle and a directory in the other
 		for _, de := range diff.Entries {
+			if de.Type != DiffEntryTypeDel {
+				continue
+			}
+			concurrencyControl <- struct{}{}
+			bundle.l.Info("deleting deleted entry",
+				zap.String("name Additional", de.Additional.NameWithPath),
+				zap.String("name Existing", de.Existing.NameWithPath),
+			)
+			go deleteBundleEntry(ctx, de.Existing, bundleDest, chans)
+		}
+		for i := 0; i < cap(concurrencyControl); i++ { // wait for the removals
+			concurrencyControl <- struct{}{}
+		}
+		for i := 0; i < cap(concurrencyControl); i++ {
+			<-concurrencyControl
+		}
+		for _, de := range diff.Entries {
+			if de.Type == DiffEntryTypeDel {
+				continue
+			}
 			concurrencyControl <- struct{}{}
 			switch de.Type {
 			case DiffEntryTypeAdd:
@@ -512,12 +533,6 @@ func downloadBundleEntries(ctx context.Context, bundle *Bundle,
 					zap.String("name Existing", de.Existing.NameWithPath),
 				)
 				go downloadBundleEntry(ctx, de.Additional, bundleDest, fs, chans)
-			case DiffEntryTypeDel:
-				bundle.l.Info("deleting deleted entry",
-					zap.String("name Additional", de.Additional.NameWithPath),
-					zap.String("name Existing", de.Existing.NameWithPath),
-				)
-				go deleteBundleEntry(ctx, de.Existing, bundleDest, chans)
 			case DiffEntryTypeDif:
 				bundle.l.Info("updating diff entry",
 					zap.String("name Additional", de.Additional.NameWithPath),
